@@ -66,6 +66,10 @@
 (* The driver derives every Fix* constant from the status of the finding    *)
 (* in known_findings.d/C20.json (fixed => TRUE, open => FALSE), so "the     *)
 (* pinned tree" below always means the tree as it is now.                   *)
+(*   FixBadKey    in the batch path a key VALUE that does not unmarshal   *)
+(*                (wrong JSON type) makes the per-resolver body return     *)
+(*                before the call: every representation of that resolver's *)
+(*                group is lost, with one error. OPEN on HEAD.              *)
 (* With all Fix* = TRUE TLC proves Correct for every list, outcome and     *)
 (* schedule in the bound; with FALSE it proves CorrectModuloKnown (nothing *)
 (* but the named deviations) and yields counterexamples to Correct.        *)
@@ -86,7 +90,7 @@ CONSTANTS
   MaxFaults,      \* at most this many non-"ent"/non-"ok" outcomes per scenario
   ReqInline,      \* TRUE: @requires populated inline by resolveEntity (default options);
                   \* FALSE: explicit_requires (nil-safe user populator) / computed_requires
-  FixFirstRep, FixShort, FixNilReq, FixBadReq
+  FixFirstRep, FixShort, FixNilReq, FixBadReq, FixBadKey
 
 VARIABLES
   reps,   \* sequence of kind names            (chosen in Init, constant afterwards)
@@ -239,6 +243,11 @@ Kind(name) ==
     [] name = "K2:cn-" -> [t |-> "K2", k |-> [b |-> "v", c |-> "null"], q |-> << >>]
     [] name = "K2:bncn" -> [t |-> "K2", k |-> [a |-> "v", b |-> "null", c |-> "null"], q |-> << >>]
     [] name = "K2:ca" -> [t |-> "K2", k |-> [a |-> "v", b |-> "v"], q |-> << >>]
+    [] name = "S:kb" -> [t |-> "S", k |-> [id |-> "badv"], q |-> << >>]
+    [] name = "Mid:kb" -> [t |-> "M", k |-> [id |-> "badv"], q |-> << >>]
+    [] name = "C:vb" -> [t |-> "C", k |-> [p |-> "v", q |-> "badv"], q |-> << >>]
+    [] name = "Cm:vb" -> [t |-> "Cm", k |-> [p |-> "v", q |-> "badv"], q |-> << >>]
+    [] name = "Cm:bv" -> [t |-> "Cm", k |-> [p |-> "badv", q |-> "v"], q |-> << >>]
     [] name = "Rmnull" -> [t |-> "Rm", k |-> [id |-> "null"], q |-> [w |-> "v"]]
 AllKinds == {"S", "Smiss", "Snull", "Ka", "Kbc", "Kboth", "Kanull", "Kb",
              "N", "Nbad", "Nmiss", "Mid", "Malt", "Mmiss", "U", "T0",
@@ -249,7 +258,8 @@ AllKinds == {"S", "Smiss", "Snull", "Ka", "Kbc", "Kboth", "Kanull", "Kb",
              "Rm3", "Rm3:1b", "Rm3:1n", "Rm3:1a", "Rm3:2b", "Rm3:2n", "Rm3:2a", "Rm3:3b",
              "Rm3:3n", "Rm3:3a", "Rmnull",
              "C", "C:vn", "C:nv", "C:nn", "C:va", "C:av", "C:na", "Cm", "Cm:vn", "Cm:nv", "Cm:nn", "Cm:va",
-             "Cm:av", "Cm:na", "N2", "N2:vn", "N2:nv", "N2:nn", "N2:va", "N2:av", "N2:na", "N2:bad", "Kbcn", "Kbnc", "Kbncn", "Kanbcn", "K2", "K2:cn", "K2:cn-", "K2:bncn", "K2:ca"}
+             "Cm:av", "Cm:na", "N2", "N2:vn", "N2:nv", "N2:nn", "N2:va", "N2:av", "N2:na", "N2:bad", "Kbcn", "Kbnc", "Kbncn", "Kanbcn", "K2", "K2:cn", "K2:cn-", "K2:bncn", "K2:ca",
+             "S:kb", "Mid:kb", "C:vb", "Cm:vb", "Cm:bv"}
 ReqKinds == {kn \in AllKinds : Kind(kn).q # << >>}
 
 Null == [r |-> "", i |-> 0, w |-> 0]
@@ -263,9 +273,12 @@ AscSeq(S) == IF S = {} THEN << >> ELSE LET m == Min(S) IN <<m>> \o AscSeq(S \ {m
 \* representation iff EVERY leaf of its key is PRESENT in the representation (explicit null counts
 \* as present, a missing leaf or a missing / non-object nested parent does not) and NOT ALL of its
 \* leaves are null. So {aisle:"B", bay:null} is a usable composite key, {aisle:"B"} is not.
+\* A leaf status "badv" is a present, non-null value of the wrong JSON type: the resolver is
+\* usable, but unmarshalling the key for it fails (KeyOK).
 Usable(r, kd) ==
   /\ \A f \in r.f : f \in DOMAIN kd.k /\ kd.k[f] # "bad"
-  /\ \E f \in r.f : kd.k[f] = "v"
+  /\ \E f \in r.f : kd.k[f] \in {"v", "badv"}
+KeyOK(r, kd) == \A f \in r.f : f \in DOMAIN kd.k => (kd.k[f] # "badv" /\ ~(r.nn /\ kd.k[f] = "null"))
 UsableIdx(kd) == {j \in 1..Len(Res(kd.t)) : Usable(Res(kd.t)[j], kd)}
 FirstUsable(kd) == IF UsableIdx(kd) = {} THEN 0 ELSE Min(UsableIdx(kd))
 \* the key handed to resolver r for representation i names i when i carries a value for at least
@@ -290,6 +303,7 @@ Range(s) == {s[j] : j \in 1..Len(s)}
 -----------------------------------------------------------------------------
 \* Scenario space.
 Callable(kn) == LET kd == Kind(kn) IN kd.t \in Types /\ FirstUsable(kd) # 0
+                                       /\ KeyOK(Res(kd.t)[FirstUsable(kd)], kd)
 OutDefault(kn) == IF Callable(kn) THEN "ent" ELSE "-"
 OutFaults(kn) ==
   LET kd == Kind(kn) IN
@@ -345,20 +359,29 @@ PlanPinned(t) ==
   IF fu = 0 THEN [bad |-> 1, q |-> << >>]
   ELSE LET r == Res(t)[fu]  ky == Keys(r, g) IN
        IF r.nn /\ \E j \in 1..Len(g) : ky[j] = 0 THEN [bad |-> 1, q |-> << >>]
-       ELSE [bad |-> 0, q |-> << [r |-> r.n, ix |-> g, ky |-> ky] >>]
+       ELSE [bad |-> 0, q |-> << [r |-> r.n, ix |-> g, ky |-> ky, kf |-> FALSE] >>]
 
 \* repaired: the resolver is chosen per representation; one call per resolver, the resolvers in
 \* order of first appearance in the request, the inputs of a call in request order; a
 \* representation without usable key gets its own error and stays null
-PartOf(t, j) == AscSeq({i \in Range(G(t)) : FirstUsable(K(i)) = j})
+\* (a representation whose key VALUE does not unmarshal for its resolver - KeyOK - makes the batch
+\* body `return` before the call: pinned, the whole group of that resolver fails with one error,
+\* kf; repaired, FixBadKey, that representation alone gets the error and is left out)
+KeyBad(t, i) == FirstUsable(K(i)) # 0 /\ ~KeyOK(Res(t)[FirstUsable(K(i))], K(i))
+PartOf(t, j) == AscSeq({i \in Range(G(t)) : FirstUsable(K(i)) = j /\ (FixBadKey => ~KeyBad(t, i))})
+FirstOf(t, j) == Min({i \in Range(G(t)) : FirstUsable(K(i)) = j})
 RECURSIVE PartsBy(_, _)
 PartsBy(t, js) ==        \* js: resolver indices still to place
   IF js = {} THEN << >>
-  ELSE LET j == CHOOSE x \in js : \A y \in js : PartOf(t, x)[1] <= PartOf(t, y)[1]
+  ELSE LET j == CHOOSE x \in js : \A y \in js : FirstOf(t, x) <= FirstOf(t, y)
            ix == PartOf(t, j) IN
-       << [r |-> Res(t)[j].n, ix |-> ix, ky |-> Keys(Res(t)[j], ix)] >> \o PartsBy(t, js \ {j})
+       (IF ix = << >> THEN << >>
+        ELSE << [r |-> Res(t)[j].n, ix |-> ix, ky |-> Keys(Res(t)[j], ix),
+                 kf |-> \E i \in Range(ix) : KeyBad(t, i)] >>)
+       \o PartsBy(t, js \ {j})
 PlanFixed(t) ==
-  [bad |-> Cardinality({i \in Range(G(t)) : FirstUsable(K(i)) = 0}),
+  [bad |-> Cardinality({i \in Range(G(t)) : FirstUsable(K(i)) = 0})
+           + (IF FixBadKey THEN Cardinality({i \in Range(G(t)) : KeyBad(t, i)}) ELSE 0),
    q |-> PartsBy(t, {FirstUsable(K(i)) : i \in Range(G(t))} \ {0})]
 
 \* resolveEntityGroup
@@ -382,8 +405,15 @@ BatchNext(t) ==
   /\ UNCHANGED <<reps, out, bout, pc, gq, gres, gz, est, list, errs, recs, order>>
 
 \* ec.resolvers.Entity().FindManyXByYs(ctx, typedReps) is entered
+\* unmarshalling the keys of the next call fails: `return errors.New("Field ... undefined in schema.")`
+BatchKeyFail(t) ==
+  /\ gst[t] = "plan" /\ gq[t] # << >> /\ Head(gq[t]).kf
+  /\ errs' = errs + 1
+  /\ gq' = [gq EXCEPT ![t] = Tail(gq[t])]
+  /\ UNCHANGED <<reps, out, bout, pc, gst, gres, gz, est, list, recs, order>>
+
 BatchCall(t) ==
-  /\ gst[t] = "plan" /\ gq[t] # << >>
+  /\ gst[t] = "plan" /\ gq[t] # << >> /\ ~Head(gq[t]).kf
   /\ gst' = [gst EXCEPT ![t] = "called"]
   /\ UNCHANGED <<reps, out, bout, pc, gq, gres, gz, est, list, errs, recs, order>>
 
@@ -446,11 +476,16 @@ ZipStep(t) ==
           /\ UNCHANGED <<errs, recs, gq, gst>>
   /\ UNCHANGED <<reps, out, bout, pc, gres, est, order>>
 
+\* unknown type, no usable resolver, or the key values do not unmarshal for the chosen resolver
+NoCall(i) == IF T(i) \notin Types THEN TRUE
+             ELSE IF FirstUsable(K(i)) = 0 THEN TRUE
+             ELSE ~KeyOK(Res(T(i))[FirstUsable(K(i))], K(i))
+
 \* resolveEntity fails before any call: unknown type, or no usable resolver
 EntityFail(i) ==
   /\ i \in Idx
   /\ est[i] = "ready"
-  /\ (T(i) \notin Types \/ FirstUsable(K(i)) = 0)
+  /\ NoCall(i)
   /\ errs' = errs + 1
   /\ est' = [est EXCEPT ![i] = "done"]
   /\ UNCHANGED <<reps, out, bout, pc, gst, gq, gres, gz, list, recs, order>>
@@ -461,7 +496,7 @@ TheRes(i) == Res(T(i))[FirstUsable(K(i))]
 EntityCall(i) ==
   /\ i \in Idx
   /\ est[i] = "ready"
-  /\ T(i) \in Types /\ FirstUsable(K(i)) # 0
+  /\ ~NoCall(i)
   /\ est' = [est EXCEPT ![i] = "called"]
   /\ UNCHANGED <<reps, out, bout, pc, gst, gq, gres, gz, list, errs, recs, order>>
 
@@ -505,6 +540,7 @@ Next ==
   \/ Build \/ Finish
   \/ \E t \in AllT : GroupStart(t)
   \/ \E t \in AllT : BatchNext(t)
+  \/ \E t \in AllT : BatchKeyFail(t)
   \/ \E t \in AllT : BatchCall(t)
   \/ \E t \in AllT : BatchReturn(t)
   \/ \E t \in AllT : ZipStep(t)
@@ -523,22 +559,25 @@ Eligible(i) == IF T(i) \notin Types THEN {} ELSE {Res(T(i))[j].n : j \in UsableI
 \* batch: the call that answers i, and the inputs of that call (all representations of the
 \* same type answered by the same resolver, in request order)
 MyRes(i) == TheRes(i).n
-Part(i) == AscSeq({j \in Idx : T(j) = T(i) /\ FirstUsable(K(j)) = FirstUsable(K(i))})
+\* i carries a usable key whose value cannot be coerced for the resolver: fails on its own
+KeyFail(i) == Eligible(i) # {} /\ ~KeyOK(TheRes(i), K(i))
+Part(i) == AscSeq({j \in Idx : T(j) = T(i) /\ FirstUsable(K(j)) = FirstUsable(K(i)) /\ ~KeyFail(j)})
 IsLast(i) == Part(i)[Len(Part(i))] = i
 
 MultiTN == {t \in TN : Multi(t)}
 
 \* the resolver delivers an entity for i, but i's required values cannot be coerced
 ReqFail(i) ==
-  /\ Eligible(i) # {} /\ ~ReqOK(K(i)) /\ out[i] # "nil"
+  /\ Eligible(i) # {} /\ ~KeyFail(i) /\ ~ReqOK(K(i)) /\ out[i] # "nil"
   /\ IF Multi(T(i)) THEN bout[MyRes(i)] \in {"ok", "long"} \/ (bout[MyRes(i)] = "short" /\ ~IsLast(i))
                     ELSE out[i] = "ent"
 
 Failed(i) ==
   \/ Eligible(i) = {}                                      \* no typename, unknown type, no usable key
   \/ ReqFail(i)                                            \* never an entity with a zero value
-  \/ /\ Eligible(i) # {} /\ ~Multi(T(i)) /\ out[i] \in {"err", "panic"}
-  \/ /\ Eligible(i) # {} /\ Multi(T(i))
+  \/ KeyFail(i)
+  \/ /\ Eligible(i) # {} /\ ~KeyFail(i) /\ ~Multi(T(i)) /\ out[i] \in {"err", "panic"}
+  \/ /\ Eligible(i) # {} /\ ~KeyFail(i) /\ Multi(T(i))
      /\ \/ bout[MyRes(i)] \in {"err", "panic"}
         \/ bout[MyRes(i)] = "short" /\ IsLast(i)
 
@@ -556,13 +595,14 @@ ElemOK(i) ==
 FailUnits ==
   Cardinality({i \in Idx : Failed(i) /\ (T(i) \notin Types \/ ~Multi(T(i)))})
   + Cardinality({r \in BatchRes : bout[r] \in {"err", "panic", "short"}
-                                  /\ \E i \in Idx : Eligible(i) # {} /\ Multi(T(i)) /\ MyRes(i) = r})
+                                  /\ \E i \in Idx : Eligible(i) # {} /\ ~KeyFail(i) /\ Multi(T(i)) /\ MyRes(i) = r})
+  + Cardinality({r \in BatchRes : \E i \in Idx : Multi(T(i)) /\ KeyFail(i) /\ MyRes(i) = r})  \* (may be reported together)
   + Cardinality({t \in MultiTN : \E i \in Idx : T(i) = t /\ Eligible(i) = {}})
   + Cardinality({i \in Idx : Multi(T(i)) /\ ReqFail(i)})      \* "an error for THAT element"
 \* situations in which an error beside intact elements is legitimate: a resolver that broke its
 \* contract without losing anything (too many entities; nil for a non-null single result)
 MayErr ==
-  \/ \E i \in Idx : Eligible(i) # {} /\ Multi(T(i)) /\ bout[MyRes(i)] = "long"
+  \/ \E i \in Idx : Eligible(i) # {} /\ ~KeyFail(i) /\ Multi(T(i)) /\ bout[MyRes(i)] = "long"
   \/ \E i \in Idx : out[i] = "nil" /\ HasReq(T(i))
 
 CorrectBody ==
@@ -581,7 +621,10 @@ DevNilReq(t) == /\ HasReq(t) /\ FU(G(t)[1]) # 0 /\ bout[PinnedRes(t)] \in {"ok",
                 /\ \E j \in Range(G(t)) : out[j] = "nil" /\ FU(j) = FU(G(t)[1])
 DevBadReq(t) == /\ HasReq(t) /\ FU(G(t)[1]) # 0 /\ bout[PinnedRes(t)] \in {"ok", "short", "long"}
                 /\ \E j \in Range(G(t)) : ~ReqOK(K(j)) /\ out[j] # "nil" /\ FU(j) = FU(G(t)[1])
+DevBadKey(t) == \E i \in Range(G(t)) : /\ KeyBad(t, i)
+                                         /\ \E j \in Range(G(t)) : FU(j) = FU(i) /\ ~KeyBad(t, j)
 Devs ==
+  (IF ~FixBadKey /\ \E t \in MultiTN : DevBadKey(t) THEN {"bad-key"} ELSE {}) \cup
   (IF ~FixBadReq /\ \E t \in MultiTN : DevBadReq(t) THEN {"bad-requires"} ELSE {}) \cup
   (IF ~FixFirstRep /\ \E t \in MultiTN : DevFirstInvalid(t) THEN {"first-invalid"} ELSE {})
   \cup (IF ~FixFirstRep /\ \E t \in MultiTN : DevOtherKey(t) THEN {"other-key"} ELSE {})
@@ -590,6 +633,7 @@ Devs ==
 \* the deviation classes a scenario lies in, whatever the Fix* constants say (the driver uses
 \* them to name a regression of a repaired deviation by its old key)
 DevsAll ==
+  (IF \E t \in MultiTN : DevBadKey(t) THEN {"bad-key"} ELSE {}) \cup
   (IF \E t \in MultiTN : DevBadReq(t) THEN {"bad-requires"} ELSE {})
   \cup (IF \E t \in MultiTN : DevFirstInvalid(t) THEN {"first-invalid"} ELSE {})
   \cup (IF \E t \in MultiTN : DevOtherKey(t) THEN {"other-key"} ELSE {})
@@ -600,6 +644,7 @@ DevGroup(t) ==
   \/ ~FixShort /\ DevShort(t)
   \/ ~FixNilReq /\ DevNilReq(t)
   \/ ~FixBadReq /\ DevBadReq(t)
+  \/ ~FixBadKey /\ DevBadKey(t)
 
 \* the pinned tree violates the property in the named situations only
 CorrectModuloKnown ==
